@@ -206,11 +206,13 @@ def run_discovery(cfg, lose, hours, probe_hours=()):
             f = frame.split()
             verb, dst, code, pl = f[0], f[3], f[5], f[7]
             self.writes.append((self._loop.time(), verb, dst, code, pl))
+            lost = lose(n, self._loop.time(), code, pl) if lose else None
+            if lost == "rq":       # the frame never reaches the air: no echo, no reply
+                return
             echo = frame.replace("18:000730", HGI)
             self._loop.call_later(0.01, self.rx, "000 " + echo)
             if verb != "RQ" or dst != CTL:
                 return
-            lost = lose(n, self._loop.time(), code, pl) if lose else None
             if lost:
                 return
             rp = reply(cfg, code, pl)
